@@ -408,7 +408,11 @@ class Engine:
     def is_guarded_refresh(self, cache, ifnode):
         """`if <presence test of slot>: del self.slot` (the memo-invalidation idiom)."""
         t = norm(ifnode.test)
-        if ('"%s"' % cache.slot in t or "'%s'" % cache.slot in t or "self.%s" % cache.slot in t) and not ifnode.orelse:
+        # every conjunct of the test must be a presence test of the slot: a further condition (`changed and hasattr(..)`)
+        # makes the invalidation depend on something else, so it is not a refresh on every path
+        conj = ifnode.test.values if isinstance(ifnode.test, ast.BoolOp) and isinstance(ifnode.test.op, ast.And) else [ifnode.test]
+        only_presence = all(('"%s"' % cache.slot in norm(c) or "'%s'" % cache.slot in norm(c) or "self.%s" % cache.slot in norm(c)) for c in conj)
+        if only_presence and ('"%s"' % cache.slot in t or "'%s'" % cache.slot in t or "self.%s" % cache.slot in t) and not ifnode.orelse:
             for s in ifnode.body:
                 if isinstance(s, ast.Delete) and any(norm(x) == "self." + cache.slot for x in s.targets):
                     return True
